@@ -539,6 +539,17 @@ def run_item(ctx, item):
                     ctx.extra["generated_dashes"] += 1
                     if isinstance(d_, S.DynamicTempoDirection):
                         ctx.extra["generated_tempo_dashes"] += 1
+        if pitched and rng.random() < 0.15 and not any(isinstance(o, S.DynamicLoudnessDirection) for o in timemaps.objects_of(p_, S.DynamicLoudnessDirection, exact=False)):
+            # two hairpins open at the same time (one per staff or hand): the first begins and ends inside one measure, the
+            # second begins while the first is open and ends later
+            for m_ in timemaps.objects_of(p_, S.Measure):
+                inside = sorted({int(n.start.t) for n in pitched if m_.start.t <= n.start.t < m_.end.t})
+                later = sorted({int(n.start.t) for n in pitched if n.start.t >= m_.end.t})
+                if len(inside) >= 3 and later:
+                    p_.add(S.IncreasingLoudnessDirection("crescendo", wedge=True), inside[0], inside[2])
+                    p_.add(S.DecreasingLoudnessDirection("diminuendo", wedge=True), inside[1], rng.choice(later[:3]))
+                    ctx.extra["generated_overlapping_hairpins"] += 1
+                    break
         if pitched and rng.random() < 0.2:
             # sustain pedal marks, within a measure or over several (non-overlapping, as on a staff)
             on_ = sorted({int(n.start.t) for n in pitched} | {int(n.end.t) for n in pitched})
